@@ -46,6 +46,21 @@ def handle (cmd : String) (args : List V) : Option V :=
       match d.runM bytes with
       | some (b, m, _) => pure (V.list [.sym "ok", b.toV, .int m.length, .hex (Wire.maskBytes m)])
       | none => pure (V.err "raised")
+  | "blk.eq", [.sym kind, a, b] => do
+      let x ← Wire.parseBlock kind a
+      let y ← Wire.parseBlock kind b
+      let r := match x, y with
+        | .data3d p, .data3d q => Data3D.eq p q
+        | .emg p, .emg q => EMG.eq p q
+        | .force3d p, .force3d q => Force3D.eq p q
+        | .platdata p, .platdata q => PlatData.eq p q
+        | .platcalib p, .platcalib q => PlatCalib.eq p q
+        | .data2d p, .data2d q => Data2D.eq p q
+        | .calib p, .calib q => Calib.eq p q
+        | .optical p, .optical q => Optical.eq p q
+        | .events p, .events q => Events.eq p q
+        | _, _ => false
+      pure (.int (if r then 1 else 0))
   | "rle.runs", [fs] => do
       let fs ← Wire.frames? fs
       pure (V.list ((runs fs).map (fun r => V.list [.int r.1, .int r.2.length])))
